@@ -7,6 +7,8 @@
 mod alloc_monitor;
 mod probe;
 mod runner;
+mod sched;
+mod seqop;
 mod suites;
 mod sweep;
 mod util;
